@@ -374,4 +374,10 @@ def rule_cell_maps(ck):
                what='per-cell binary log-likelihood')
 
 
-RULES = [rule_masked, rule_indicator, rule_binary_formula, rule_brier_formula, rule_isomorphism, rule_public, rule_cell_maps]
+def rule_own_magnitudes_shared(ck):
+    from . import c11
+    ck.clause('shared C11-D5: a forecast bins magnitudes with its own edges')
+    c11.rule_own_magnitudes(ck)
+
+
+RULES = [rule_masked, rule_indicator, rule_binary_formula, rule_brier_formula, rule_isomorphism, rule_public, rule_cell_maps, rule_own_magnitudes_shared]
